@@ -239,7 +239,7 @@ class World:
             "state_engine": {"store_url": shared_store or os.path.join(self.tmpdir, "ASL_store_%s.json" % iid), "execution_ttl": self.ttl},
             "event_queue": {"queue_name": "asl_workflow_events", "queue_type": self.queue_type, "instance_id": iid,
                             "queue_implementation": "sim", "connection_url": "amqp://localhost:5672",
-                            "orphaned_response_retention_ms": 1000},
+                            "orphaned_response_retention_ms": 600000},
             "notifier": {"topic": "asl_workflow_engine", "message_ttl": 60000},
             "rest_api": {"host": "0.0.0.0", "port": 4584, "region": "local"},
         }
